@@ -27,14 +27,18 @@ MANIFEST = {
              'Frame op Series on both axes, Frame with scalar/array, Frame.reindex over every layout; hierarchies whose branches share one inner Index object; NaN / NaT labels '
              '(ordinary labels only) with Index.equals against its model; an operator matrix decided on the Python side against NumPy-scalar references: EVERY binary operator '
              'method, direct and reflected, of Series, Frame and Frame.via_T with scalar / tuple / list / array / Series operands on several layouts, with pairwise '
-             'distinguishable operand values; datetime indices of different units.'),
+             'distinguishable operand values; datetime indices of different units; coverage-guided routes (string cells, 2-D array operands, many / zero operands, grown IndexGO, '
+             'range / dict / generator operands, Boolean labels, mixed depth, IndexHierarchy with ndarray / list / empty / date-typed / int32 operands, 2-D kernels on width-1 / empty / '
+             'unsortable rows, unified-block fancy selection of resize_blocks, consolidation of several dtype runs).'),
     'note': ('Trusted / assumed: the Coq kernel; the hand-written models (tied to the code only by the differential runs of this check and by the regenerated '
              'constants and the regenerated util.resolve_dtype used for the object-path and NaN-fill dtype decisions); ORACLE models of NumPy (np.union1d / intersect1d / '
              'setdiff1d as sort+dedup+filter; element-wise operators on exact integers, dyadic rationals, Booleans and NaN; sorted() fails exactly on mixed number/str '
              'label sets); label equality = structural equality of the observed values (no label set mixes 1 / 1.0 / True); the hash order of an unsortable frozenset is '
              'not predicted (such results are compared as label->value maps). Partial: TypeBlocks._ufunc_binary_operator (block_compatible / reblock / values paths) is '
-             'proved layout-independent for a TypeBlocks operand (C06_tb_binop_layout_independent); the 1-D array / scalar operand paths are modelled and observed only; dtype of results is observed only through the value classes (int / float / bool); operators pow, '
-             'shifts, matmul, string cells, datetime cells and NaN labels are outside the generators. Four open findings are listed in known/C06.jsonl (D12 comparisons, D12 logical operators, zero-column results, datetime indices of different units with an unsorted operand); two more (resize_blocks with one axis '
+             'proved layout-independent for a TypeBlocks operand (C06_tb_binop_layout_independent) and for a 1-D / scalar operand on either axis (C06_tb_rowwise_layout_independent, C06_tb_colwise_layout_independent); dtype of results is observed only through the value classes (int / float / bool); the Coq operator oracle covers + - * / // % comparisons and & | ^ on int / float / bool cells; pow, shifts, string cells, Boolean and mixed-depth labels, '
+             'many-operand set operations, grown IndexGO operands, 2-D array operands and the other coverage-guided routes are decided on the Python side against NumPy / dict '
+             'references (no model term); matmul, datetime / timedelta CELLS, unsigned and bytes dtypes, operators between Index objects beyond a positional check, the '
+             'compare_name / compare_class flags of equals, and the scalar-Boolean branch of apply_binary_operator (dead under NumPy 2) are not covered. Six open findings are listed in known/C06.jsonl (D12 comparisons, D12 logical operators, zero-column results, datetime indices of different units with an unsorted operand, Boolean labels with different label sets, a 1-D tuple index against a hierarchy); two more (resize_blocks with one axis '
              'without common labels: fix 658b4ce; the .values fallback of incompatible layouts coercing every column: fix e1c1c73) are repaired and kept as regression classes.'),
     'technique': 'refinement proof (decision-procedure / block-walking model = set algebra / label lookup) + differential correspondence evaluated inside Coq',
 }
@@ -1465,6 +1469,317 @@ def datetime_unit_cases(ctx):
                         'case': name, 'observed': obs}, py_fail=fail, tags=tags)
 
 
+F_MIXDEPTH = 'C06-mixed-depth-operator-raises'
+F_BOOLLAB = 'C06-bool-labels-partial-overlap'
+
+
+def _pyfail_series(r, spec, numeric=True):
+    """Result Series against {label: value or None (missing)}; returns a failure text or None."""
+    got = dict(zip([plain(x) for x in lit.labels(r.index)], [plain(v) for v in lit.array_vals(r.values)]))
+    if len(got) != len(r.index) or set(got) != set(spec):
+        return f'labels {sorted(map(str, got))}, expected {sorted(map(str, spec))}'
+    for k, w in spec.items():
+        v = got[k]
+        if w is None:
+            if v == v and v is not None:
+                return f'at {k!r}: {v!r}, expected the missing marker'
+        elif v != w or (not numeric and type(v) is not type(w)):
+            return f'at {k!r}: {v!r}, expected {w!r}'
+    return None
+
+
+def route_cases(ctx):
+    """Routes of the aligned-operator / set-operation code that the other strata do not reach (coverage-guided):
+    string cells (container_util.apply_binary_operator: npc.add / multiply, scalar Boolean results), 2-D unlabelled
+    operands, many / zero operands of union / intersection, grown IndexGO operands, range / dict / generator / labelled
+    arguments, Boolean labels, 1-D tuple labels against hierarchies, IndexHierarchy with ndarray / list / empty /
+    date-typed operands, unified-block fancy selection of resize_blocks, consolidation of several dtype runs."""
+    import static_frame as sf
+    rng = ctx.rng
+
+    def attempt(fn):
+        import warnings
+        try:
+            with warnings.catch_warnings():
+                warnings.simplefilter('ignore')
+                return fn(), None
+        except Exception as e:  # noqa
+            return None, e
+
+    def pycase(kind, call, fn, check, tags=None, expect_error=None):
+        r, e = attempt(fn)
+        fail = None
+        if expect_error is not None:
+            if e is None or lit.err_class(e) != expect_error:
+                fail = f'expected {expect_error}, got {type(e).__name__ if e else "a result"}'
+            obs = type(e).__name__ if e else 'result'
+        elif e is not None:
+            fail, obs = f'raised {type(e).__name__}: {e}', type(e).__name__
+        else:
+            fail = check(r)
+            obs = repr(r.values.tolist())[:300] if hasattr(r, 'values') else repr(r)
+        ctx.count('route:' + kind)
+        return Case('api:route:' + kind, {'call': call, 'observed': obs}, py_fail=fail, tags=dict(tags or {}, route=kind))
+
+    # ---- 1. string cells -------------------------------------------------------------------------------------------
+    labels = ('x', 'y', 'z')
+    cells = ['ab', 'c', 'de']
+    ss = sf.Series(cells, index=labels)
+    perm = sf.Series(['1', '22', '3'], index=('z', 'x', 'y'))
+    byl = dict(zip(labels, cells))
+    pb = dict(zip(('z', 'x', 'y'), ['1', '22', '3']))
+    str_ops = [
+        ('add-scalar', lambda: ss + 'q', {k: v + 'q' for k, v in byl.items()}),
+        ('radd-scalar', lambda: 'q' + ss, {k: 'q' + v for k, v in byl.items()}),
+        ('mul-scalar', lambda: ss * 2, {k: v * 2 for k, v in byl.items()}),
+        ('rmul-scalar', lambda: 2 * ss, {k: v * 2 for k, v in byl.items()}),
+        ('eq-scalar', lambda: ss == 'c', {k: v == 'c' for k, v in byl.items()}),
+        ('ne-scalar', lambda: ss != 'c', {k: v != 'c' for k, v in byl.items()}),
+        ('lt-scalar', lambda: ss < 'c', {k: v < 'c' for k, v in byl.items()}),
+        ('ge-scalar', lambda: ss >= 'c', {k: v >= 'c' for k, v in byl.items()}),
+        ('eq-int-scalar', lambda: ss == 3, {k: False for k in byl}),            # NumPy answers one scalar False: expanded
+        ('ne-int-scalar', lambda: ss != 3, {k: True for k in byl}),
+        ('eq-array-1', lambda: ss == np.array(['c']), {k: v == 'c' for k, v in byl.items()}),
+        ('add-series-permuted', lambda: ss + perm, {k: byl[k] + pb[k] for k in byl}),
+        ('radd-series-permuted', lambda: ss.__radd__(perm), {k: pb[k] + byl[k] for k in byl}),
+        ('eq-series-permuted', lambda: ss == sf.Series(['c', 'ab', 'x'], index=('y', 'x', 'z')), {'x': True, 'y': True, 'z': False}),
+        ('add-array', lambda: ss + np.array(['1', '2', '3']), {k: byl[k] + d for k, d in zip(labels, '123')}),
+    ]
+    for name, fn, spec in str_ops:
+        yield pycase('str-cells:series:' + name, f'Series({cells}, index={labels}) {name}', fn, lambda r, spec=spec: _pyfail_series(r, spec, numeric=False))
+    yield pycase('str-cells:series:eq-array-wrong-length', 'Series(str) == array of 2', lambda: ss == np.array(['c', 'd']), None, expect_error='ValueError')
+    for lay in (((2, True),), ((1, False), (1, True))):
+        fs = zoo.frame_from_columns([np.array(['ab', 'c']), np.array(['d', 'ef'])], lay, index=make_index(('x', 'y'), 'str'), columns=make_index(('p', 'q'), 'str'))
+        fcell = {('x', 'p'): 'ab', ('y', 'p'): 'c', ('x', 'q'): 'd', ('y', 'q'): 'ef'}
+
+        def fcheck(r, f_):
+            got = {(plain(rl), plain(cl)): plain(v) for cl, a in zip(lit.labels(r.columns), r.iter_array(axis=0)) for rl, v in zip(lit.labels(r.index), lit.array_vals(a))}
+            want = {k: f_(v, k) for k, v in fcell.items()}
+            return None if got == want and all(type(got[k]) is type(want[k]) for k in want) else f'cells {got}, expected {want}'
+        other = zoo.frame_from_columns([np.array(['1', '2']), np.array(['3', '4'])], ((1, True), (1, False)), index=make_index(('y', 'x'), 'str'), columns=make_index(('q', 'p'), 'str'))
+        ocell = {('y', 'q'): '1', ('x', 'q'): '2', ('y', 'p'): '3', ('x', 'p'): '4'}
+        col_s = sf.Series(['7', '8'], index=('q', 'p'))
+        row_s = sf.Series(['7', '8'], index=('y', 'x'))
+        for name, fn, f_ in (('add-scalar', lambda: fs + 'z', lambda v, k: v + 'z'), ('radd-scalar', lambda: 'z' + fs, lambda v, k: 'z' + v),
+                             ('mul-scalar', lambda: fs * 2, lambda v, k: v * 2), ('eq-scalar', lambda: fs == 'c', lambda v, k: v == 'c'),
+                             ('eq-int-scalar', lambda: fs == 1, lambda v, k: False), ('lt-scalar', lambda: fs < 'd', lambda v, k: v < 'd'),
+                             ('add-frame-permuted', lambda: fs + other, lambda v, k: v + ocell[k]),
+                             ('add-series-axis0', lambda: fs + col_s, lambda v, k: v + {'q': '7', 'p': '8'}[k[1]]),
+                             ('radd-series-axis1', lambda: fs.via_T.__radd__(row_s), lambda v, k: {'y': '7', 'x': '8'}[k[0]] + v)):
+            yield pycase(f'str-cells:frame:{name}', f'Frame(str cells, layout {zoo.layout_str(lay)}) {name}', fn, lambda r, f_=f_: fcheck(r, f_), tags={'layout': zoo.layout_str(lay)})
+
+    # ---- 2. Frame with an unlabelled 2-D array (positional), every operator kind, and the shape guard --------------
+    for lay in zoo.layouts_for([np.int64, np.int64, np.float64]):
+        f = zoo.frame_from_columns([np.array([7, -5]), np.array([9, 13]), np.array([2.5, -1.5])], lay, index=make_index(('x', 'y'), 'str'), columns=make_index(('a', 'b', 'c'), 'str'))
+        arr = np.array([[2, -3, 4], [5, 2, -2]])
+        base = np.array([[7, 9, 2.5], [-5, 13, -1.5]], dtype=object)
+        import operator as o
+        for name, fn in (('add', o.add), ('sub', o.sub), ('mul', o.mul), ('truediv', o.truediv), ('floordiv', o.floordiv), ('mod', o.mod), ('lt', o.lt), ('eq', o.eq)):
+            def chk(r, fn=fn):
+                for j, a in enumerate(r.iter_array(axis=0)):
+                    col = np.array([7, -5]) if j == 0 else np.array([9, 13]) if j == 1 else np.array([2.5, -1.5])
+                    want = fn(col, arr[:, j])
+                    if a.dtype != want.dtype or a.tolist() != want.tolist():
+                        return f'column {j}: {a.tolist()} {a.dtype}, expected {want.tolist()} {want.dtype}'
+                return None if lit.labels(r.index) == ['x', 'y'] and lit.labels(r.columns) == ['a', 'b', 'c'] else 'labels changed'
+            yield pycase(f'frame-op-array2d:{name}', f'Frame(layout {zoo.layout_str(lay)}).__{name}__(2x3 ndarray)', lambda f=f, fn=fn: fn(f, arr), chk, tags={'layout': zoo.layout_str(lay)})
+        yield pycase('frame-op-array2d:wrong-shape', 'Frame(2x3) + ndarray(2x2)', lambda f=f: f + np.array([[1, 2], [3, 4]]), None, expect_error='NotImplementedError')
+
+    # ---- 3. union / intersection of many or no operands; operand kinds of iterable_to_array_1d; grown IndexGO --------
+    def labels_check(want, ordered=None):
+        def chk(r):
+            got = [plain(x) for x in lit.labels(r)]
+            if len(got) != len(set(got)) or set(got) != set(want):
+                return f'labels {got}, set algebra prescribes {sorted(want, key=str)}'
+            if ordered is not None and got != ordered:
+                return f'labels {got}, identical operands keep the order {ordered}'
+            return None
+        return chk
+    for kind in ('int', 'str'):
+        u = UNIVERSES[kind]
+        for _ in range(ctx.n(12, 200)):
+            la, lb, lc = (rng.sample(u, rng.randint(0, 5)) for _ in range(3))
+            a, b, c = make_index(la, kind), make_index(lb, kind), make_index(lc, kind)
+            yield pycase('setop:many:union', f'Index({la}).union(Index({lb}), Index({lc}))', lambda: a.union(b, c), labels_check(set(la) | set(lb) | set(lc)))
+            yield pycase('setop:many:intersection', f'Index({la}).intersection(Index({lb}), {lc})', lambda: a.intersection(b, list(lc)), labels_check(set(la) & set(lb) & set(lc)))
+            yield pycase('setop:many:identical', f'Index({la}).union(same, same)', lambda: a.union(make_index(la, kind), make_index(la, kind)), labels_check(set(la), ordered=list(la)))
+            yield pycase('setop:none:union', f'Index({la}).union()', lambda: a.union(), labels_check(set(la), ordered=list(la)))
+            yield pycase('setop:none:intersection', f'IndexGO({la}).intersection()', lambda: make_index(la, kind, cls=sf.IndexGO).intersection(), labels_check(set(la), ordered=list(la)))
+            # a grow-only index with appended labels (array cache pending) as receiver and as argument
+            g = make_index(la, kind, cls=sf.IndexGO)
+            extra = [x for x in u if x not in la][:2]
+            for x in extra:
+                g.append(x)
+            lg = la + extra
+            for opname, want in (('union', set(lg) | set(lb)), ('intersection', set(lg) & set(lb)), ('difference', set(lg) - set(lb))):
+                yield pycase(f'setop:grown-go-receiver:{opname}', f'IndexGO({la}+append{extra}).{opname}(Index({lb}))', lambda opname=opname: getattr(g, opname)(b), labels_check(want))
+            yield pycase('setop:grown-go-argument:union', f'Index({lb}).union(IndexGO({la}+append{extra}))', lambda: b.union(g), labels_check(set(lg) | set(lb)))
+            yield pycase('setop:grown-go-identical', 'Index(labels).union(grown IndexGO with the same labels)', lambda: make_index(lg, kind).union(g), labels_check(set(lg), ordered=list(lg)))
+    a = make_index((3, 1, 2), 'int')
+    yield pycase('setop:operand:range', 'Index((3,1,2)).union(range(2,5))', lambda: a.union(range(2, 5)), labels_check({1, 2, 3, 4}))
+    yield pycase('setop:operand:range-difference', 'Index((3,1,2)).difference(range(2,5))', lambda: a.difference(range(2, 5)), labels_check({1}))
+    yield pycase('setop:operand:dict', 'Index((3,1,2)).intersection({7:0, 1:0})', lambda: a.intersection({7: 0, 1: 0}), labels_check({1}))
+    yield pycase('setop:operand:dict-keys', 'Index((3,1,2)).union({7:0}.keys())', lambda: a.union({7: 0, 1: 0}.keys()), labels_check({1, 2, 3, 7}))
+    yield pycase('setop:operand:generator', 'Index((3,1,2)).union(generator)', lambda: a.union(x for x in (4, 1, 4)), labels_check({1, 2, 3, 4}))
+    yield pycase('setop:operand:single-str', "Index(('a','b')).union('ab')", lambda: make_index(('a', 'b'), 'str').union('ab'), labels_check({'a', 'b', 'ab'}))
+    yield pycase('setop:operand:labelled-rejected', 'Index.union(Series): labels would be ignored', lambda: a.union(sf.Series((1, 2))), None, expect_error='RuntimeError')
+
+    # ---- 4. Boolean labels ----------------------------------------------------------------------------------------------
+    for la, lb in itertools.product(([True, False], [False, True], [True], [False]), repeat=2):
+        va, vb = list(range(1, len(la) + 1)), [10 * (k + 1) for k in range(len(lb))]
+        da, db = dict(zip(la, va)), dict(zip(lb, vb))
+        spec = {k: (da[k] + db[k] if k in da and k in db else None) for k in set(da) | set(db)}
+        tags = {'labels': 'bool'}
+        if set(la) != set(lb):
+            tags['finding'] = F_BOOLLAB                # by construction: Boolean labels, label sets differ
+        yield pycase('bool-labels:series-add', f'Series({va}, index={la}) + Series({vb}, index={lb})',
+                     lambda: sf.Series(va, index=la) + sf.Series(vb, index=lb), lambda r, spec=spec: _pyfail_series(r, spec), tags=tags)
+        ia, ib = sf.Index(la), sf.Index(lb)
+        for opname, want in (('union', set(la) | set(lb)), ('intersection', set(la) & set(lb)), ('difference', set(la) - set(lb))):
+            yield pycase(f'bool-labels:{opname}', f'Index({la}).{opname}(Index({lb}))', lambda opname=opname: getattr(ia, opname)(ib), labels_check(want), tags={'labels': 'bool'})
+        if set(lb) <= set(la):
+            yield pycase('bool-labels:reindex-subset', f'Series({va}, index={la}).reindex({lb})', lambda: sf.Series(va, index=la).reindex(lb),
+                         lambda r: _pyfail_series(r, {k: da[k] for k in lb}), tags={'labels': 'bool'})
+
+    # ---- 5. a 1-D index of tuples against a hierarchy (mixed depth) ----------------------------------------------------
+    tl, hl = [('a', 1), ('b', 2)], [('b', 2), ('a', 1), ('c', 3)]
+    s1 = sf.Series([1, 2], index=make_index(tl, 'tup'))
+    s2 = sf.Series([10, 20, 30], index=sf.IndexHierarchy.from_labels(hl))
+    yield pycase('mixed-depth:reindex-tuples-to-hierarchy', 'Series(index=1-D tuples).reindex(IndexHierarchy)', lambda: s1.reindex(s2.index),
+                 lambda r: _pyfail_series(r, {('b', 2): 2, ('a', 1): 1, ('c', 3): None}))
+    yield pycase('mixed-depth:reindex-hierarchy-to-tuples', 'Series(index=IndexHierarchy).reindex(1-D tuples)', lambda: s2.reindex(s1.index),
+                 lambda r: _pyfail_series(r, {('a', 1): 20, ('b', 2): 10}))
+    yield pycase('mixed-depth:reindex-int-to-hierarchy', 'Series(index=(1,2)).reindex(IndexHierarchy): no label can match', lambda: sf.Series([1, 2], index=(1, 2)).reindex(s2.index),
+                 lambda r: _pyfail_series(r, {k: None for k in hl}))
+    mspec = {('a', 1): 21, ('b', 2): 12, ('c', 3): None}
+    yield pycase('mixed-depth:series-add', 'Series(index=1-D tuples) + Series(index=IndexHierarchy)', lambda: s1 + s2, lambda r: _pyfail_series(r, mspec), tags={'finding': F_MIXDEPTH})
+    yield pycase('mixed-depth:series-add-reversed', 'Series(index=IndexHierarchy) + Series(index=1-D tuples)', lambda: s2 + s1, lambda r: _pyfail_series(r, mspec), tags={'finding': F_MIXDEPTH})
+
+    # ---- 6. IndexHierarchy set operations: ndarray / list / empty / date-typed / int32 operands ------------------------
+    ih = sf.IndexHierarchy.from_labels([('a', 1), ('a', 2), ('b', 1)])
+    ihl = [('a', 1), ('a', 2), ('b', 1)]
+    arr2 = np.array([['b', 1], ['c', 2], ['b', 1]], dtype=object)
+    for opname, opcoq, want in (('union', 'OpUnion', {('a', 1), ('a', 2), ('b', 1), ('c', 2)}), ('intersection', 'OpInter', {('b', 1)}), ('difference', 'OpDiff', {('a', 1), ('a', 2)})):
+        for okind, operand, kcoq, lb in (('ndarray-2d-with-repeats', arr2, 'OperandArray', [('b', 1), ('c', 2), ('b', 1)]),
+                                         ('list-of-tuples', [('b', 1), ('c', 2)], '(OperandIterable false)', [('b', 1), ('c', 2)])):
+            obs, exc = _res_labels(lambda: getattr(ih, opname)(operand))
+            ctx.count('route:ih-operand:' + okind)
+            if exc is not None:
+                yield Case('api:route:ih-operand', {'call': f'IndexHierarchy.{opname}({okind})'}, py_fail=f'raised {type(exc).__name__}: {exc}', tags={'route': 'ih-operand'})
+                continue
+            yield Case('api:route:ih-operand', {'call': f'IndexHierarchy({ihl}).{opname}({okind} {lb})', 'observed': repr(plain(obs))},
+                       m=f'MI2 {opcoq} {kcoq} false DObj DObj 2 2 {lit.vlist(ihl)} {lit.vlist(lb)} (Ok {lit.vlist(obs)})',
+                       s=f'SI {opcoq} false {lit.vlist(ihl)} {lit.vlist(list(dict.fromkeys(lb)))} {lit.vlist(obs)}', tags={'route': 'ih-operand', 'operand': okind, 'op': opname})
+        empty = sf.IndexHierarchy.from_labels((), depth_reference=2)
+        yield pycase(f'ih-empty-argument:{opname}', f'IndexHierarchy.{opname}(empty IndexHierarchy)', lambda opname=opname: getattr(ih, opname)(empty),
+                     labels_check(set(ihl) if opname != 'intersection' else set()))
+        yield pycase(f'ih-empty-receiver:{opname}', f'empty IndexHierarchy.{opname}(IndexHierarchy)', lambda opname=opname: getattr(empty, opname)(ih),
+                     labels_check(set(ihl) if opname == 'union' else set()))
+        i32 = sf.IndexHierarchy.from_labels(np.array([[1, 1], [1, 2], [2, 1]], dtype=np.int32))
+        i64 = sf.IndexHierarchy.from_labels(np.array([[2, 1], [3, 3]], dtype=np.int64))
+        w = {'union': {(1, 1), (1, 2), (2, 1), (3, 3)}, 'intersection': {(2, 1)}, 'difference': {(1, 1), (1, 2)}}[opname]
+        yield pycase(f'ih-int32-int64:{opname}', f'IndexHierarchy(int32 rows).{opname}(IndexHierarchy(int64 rows))', lambda opname=opname: getattr(i32, opname)(i64), labels_check(w))
+        d1 = sf.IndexHierarchy.from_labels([('a', '2020-01-01'), ('a', '2020-01-02'), ('b', '2020-01-01')], index_constructors=(sf.Index, sf.IndexDate))
+        d2 = sf.IndexHierarchy.from_labels([('b', '2020-01-01'), ('c', '2020-01-05')], index_constructors=(sf.Index, sf.IndexDate))
+        d3 = sf.IndexHierarchy.from_labels([('b', np.datetime64('2020-01-01')), ('c', np.datetime64('2020-01-05'))])      # inner level a plain Index: constructors differ
+        import datetime as dtm
+        D = lambda s_: dtm.date.fromisoformat(s_)
+        wd = {'union': {('a', D('2020-01-01')), ('a', D('2020-01-02')), ('b', D('2020-01-01')), ('c', D('2020-01-05'))}, 'intersection': {('b', D('2020-01-01'))},
+              'difference': {('a', D('2020-01-01')), ('a', D('2020-01-02'))}}[opname]
+        for nm, other in (('date-inner-level', d2), ('date-inner-level-other-constructor', d3)):
+            yield pycase(f'ih-{nm}:{opname}', f'IndexHierarchy(str, IndexDate).{opname}({nm})', lambda opname=opname, other=other: getattr(d1, opname)(other),
+                         lambda r, wd=wd: None if {(a_, (b_.item() if hasattr(b_, "item") else b_)) for a_, b_ in map(tuple, r.values.tolist())} == wd and len(r) == len(wd) else f'labels {r.values.tolist()}')
+    # (a set of tuples and an empty list are refused by iterable_to_array_2d with RuntimeError: not index operands, not asserted)
+    for nm, mk in (('generator-of-tuples', lambda: (x for x in [('b', 1), ('c', 2)])), ('tuple-of-tuples', lambda: (('b', 1), ('c', 2)))):
+        inc = {('b', 1), ('c', 2)}
+        yield pycase(f'ih-operand:{nm}:union', f'IndexHierarchy.union({nm})', lambda mk=mk: ih.union(mk()), labels_check(set(ihl) | inc))
+        yield pycase(f'ih-operand:{nm}:difference', f'IndexHierarchy.difference({nm})', lambda mk=mk: ih.difference(mk()), labels_check(set(ihl) - inc))
+    # Index / IndexHierarchy as operands of operators: unlabelled, positional, an ndarray comes back
+    ix, iy = sf.Index((7, -5, 11)), sf.Index((2, 3, -4))
+    import operator as o2
+    for nm, fn in (('add', o2.add), ('sub', o2.sub), ('floordiv', o2.floordiv), ('mod', o2.mod), ('truediv', o2.truediv), ('eq', o2.eq), ('lt', o2.lt)):
+        for other, ov, onm in ((iy, iy.values, 'Index'), (3, 3, 'scalar'), (np.array([2, 3, -4]), np.array([2, 3, -4]), 'array')):
+            yield pycase(f'index-operator:{nm}:{onm}', f'Index((7,-5,11)) {nm} {onm}', lambda fn=fn, other=other: fn(ix, other),
+                         lambda r, fn=fn, ov=ov: None if isinstance(r, np.ndarray) and r.tolist() == fn(ix.values, ov).tolist() and r.dtype == fn(ix.values, ov).dtype else f'{r!r}')
+        if nm == 'mod':
+            continue                      # (no reflected modulo in this version)
+        yield pycase(f'index-operator:r{nm}:scalar', f'3 {nm} Index((7,-5,11))', lambda fn=fn: fn(3, ix),
+                     lambda r, fn=fn: None if isinstance(r, np.ndarray) and r.tolist() == fn(3, ix.values).tolist() else f'{r!r}')
+    yield pycase('index-operator:hierarchy-eq', 'IndexHierarchy == IndexHierarchy (2-D positional)', lambda: ih == sf.IndexHierarchy.from_labels([('a', 1), ('a', 3), ('b', 1)]),
+                 lambda r: None if np.asarray(r).tolist() == [[True, True], [True, False], [True, True]] else f'{r!r}')
+    yield pycase('series-op-array2d-rejected', 'Series + 2-D ndarray', lambda: sf.Series((1, 2)) + np.array([[1, 2], [3, 4]]), None, expect_error='NotImplementedError')
+    yield pycase('ih-operand:1d-array-rejected', 'IndexHierarchy.intersection(1-D ndarray)', lambda: ih.intersection(np.array([1, 2])), None, expect_error='ErrorInitIndex')
+    yield pycase('ih-date-inner-level:series-add', 'Series(index=IH(str, IndexDate)) + Series(index=IH(str, IndexDate))',
+                 lambda: sf.Series([1, 2, 3], index=d1) + sf.Series([10, 20], index=d2),
+                 lambda r: None if [None if v != v else v for v in r.values.tolist()] == [None, None, 13.0, None] and len(r) == 4 else f'values {r.values.tolist()}')
+
+    # ---- 7. kernels: 2-D set routines on width-1, empty, 1-D-tuple and unsortable operands; ufunc_set_iter in 2-D --------
+    from static_frame.core import util as U
+    k2 = {'OpUnion': U.union2d, 'OpInter': U.intersect2d, 'OpDiff': U.setdiff2d}
+
+    def rows(out):
+        return [tuple(r) if isinstance(r, (list, tuple)) else (r,) for r in out.tolist()]
+    tup1 = np.empty(2, dtype=object)
+    tup1[:] = [('a', 1), ('b', 2)]
+    pool2 = [('width-1', np.array([[3], [1], [2]]), np.array([[2], [5]]), [(3,), (1,), (2,)], [(2,), (5,)]),
+             ('empty-left', np.empty((0, 2), dtype=np.int64), np.array([[1, 2]]), [], [(1, 2)]),
+             ('empty-right', np.array([[1, 2], [0, 1]]), np.empty((0, 2), dtype=np.int64), [(1, 2), (0, 1)], []),
+             ('int32-int64', np.array([[1, 2], [0, 1]], dtype=np.int32), np.array([[0, 1], [7, 7]], dtype=np.int64), [(1, 2), (0, 1)], [(0, 1), (7, 7)]),
+             ('1d-tuples-vs-2d', tup1, np.array([['b', 2], ['c', 3]], dtype=object), [('a', 1), ('b', 2)], [('b', 2), ('c', 3)]),
+             ('unsortable-rows', np.array([['a', 1], [2, 'b']], dtype=object), np.array([[2, 'b'], ['c', 3]], dtype=object), [('a', 1), (2, 'b')], [(2, 'b'), ('c', 3)])]
+    for nm, a2, b2, la, lb in pool2:
+        for opcoq, fn in k2.items():
+            r, e = attempt(lambda: fn(a2, b2, assume_unique=True))
+            ctx.count('route:kernel2d:' + nm)
+            if e is not None:
+                yield Case('kernel:route:ufunc_set_2d', {'call': f'util.{fn.__name__}({nm})'}, py_fail=f'raised {type(e).__name__}: {e}', tags={'route': 'kernel2d', 'case': nm})
+                continue
+            obs = rows(r)
+            yield Case('kernel:route:ufunc_set_2d', {'call': f'util.{fn.__name__}({la}, {lb}, assume_unique=True) [{nm}]', 'observed': repr(plain(obs))},
+                       m=f'MU2 {opcoq} true {lit.dtype(a2.dtype)} {lit.dtype(b2.dtype)} {lit.vlist(la)} {lit.vlist(lb)} {lit.vlist(obs)}',
+                       s=f'SI {opcoq} true {lit.vlist(la)} {lit.vlist(lb)} {lit.vlist(obs)}', tags={'route': 'kernel2d', 'case': nm})
+    arrays2 = [np.array([[1, 2], [0, 1], [3, 3]]), np.array([[0, 1], [3, 3]]), np.array([[3, 3], [9, 9]])]
+    for union in (True, False):
+        r, e = attempt(lambda: U.ufunc_set_iter(arrays2, union=union, assume_unique=True))
+        want = ({(1, 2), (0, 1), (3, 3), (9, 9)} if union else {(3, 3)})
+        yield pycase(f'kernel:ufunc_set_iter-2d:{"union" if union else "intersection"}', 'util.ufunc_set_iter(three 2-D arrays)', lambda: U.ufunc_set_iter(arrays2, union=union, assume_unique=True),
+                     lambda r, want=want: None if set(map(tuple, r.tolist())) == want and len(r) == len(want) else f'rows {r.tolist()}')
+    yield pycase('kernel:ufunc_set_iter:ndim-mismatch', 'util.ufunc_set_iter([1-D, 2-D])', lambda: U.ufunc_set_iter([np.array([1, 2]), np.array([[1, 2]])], union=True), None, expect_error='RuntimeError')
+
+    # ---- 8. resize_blocks: ONE block (1-D, or 2-D of 2-3 columns) with a column selection that is a subset / reordering ----
+    for ncol, is2d in ((1, False), (1, True), (2, True), (3, True)):
+        cols = UNIVERSES['str'][:ncol]
+        arrs = [np.array([10 * (j + 1) + i for i in range(3)]) for j in range(ncol)]
+        f = zoo.frame_from_columns(arrs, ((ncol, is2d),), index=make_index((0, 1, 2), 'int'), columns=make_index(cols, 'str'))
+        col_targets = [list(p_) for k in range(1, ncol + 1) for p_ in itertools.permutations(cols, k)] + [list(cols) + ['zz'], ['zz']]
+        idx_targets = [None, [2, 0, 1], [1], [2, 7], [8, 9], []]
+        for nc in col_targets:
+            for ni in idx_targets:
+                if nc == list(cols) and ni is None:
+                    continue
+                kw = {'columns': make_index(nc, 'str')}
+                if ni is not None:
+                    kw['index'] = make_index(ni, 'int')
+                obs, odesc = frame_obs(lambda: f.reindex(**kw))
+                ctx.count('route:reindex-unified')
+                oi = 'None' if ni is None else f'(Some {lit.vlist(ni)})'
+                ddi = lit.dtype(kw['index'].values.dtype) if ni is not None else lit.dtype(f.index.values.dtype)
+                yield Case('api:route:frame.reindex-unified', {'call': f'A.reindex(index={ni!r}, columns={nc!r})', 'A': frame_desc(f), 'observed': odesc},
+                           m=f'MFR {fin_lit(f)} {ddi} {lit.dtype(kw["columns"].values.dtype)} {oi} (Some {lit.vlist(nc)}) {obs}',
+                           s=f'SFR {fin_lit(f)} {oi} (Some {lit.vlist(nc)}) {obs}', tags={'route': 'reindex-unified', 'layout': zoo.layout_str(((ncol, is2d),))})
+
+    # ---- 9. operator between layouts whose consolidation has several dtype runs (reblock path, quick tier too) ---------
+    dts = ['int', 'int', 'float', 'float', 'int']
+    lays = [((1, False),) * 5, ((2, True), (2, True), (1, False)), ((1, True), (1, False), (2, True), (1, True)), ((2, True), (1, False), (1, True), (1, False))]
+    for la_, lb_ in itertools.permutations(lays, 2):
+        for mode in ('equal', 'shifted'):
+            cols5 = UNIVERSES['str'][:5]
+            fa = make_frame(rng, (0, 1, 2), 'int', cols5, 'str', dts, la_)
+            fb = make_frame(rng, (0, 1, 2) if mode == 'equal' else (2, 0, 3), 'int', cols5 if mode == 'equal' else tuple(reversed(cols5)), 'str',
+                            dts if mode == 'equal' else list(reversed(dts)), lb_ if mode == 'equal' else tuple(reversed(lb_)))
+            yield from frame_pair_cases(ctx, fa, fb, dts, dts if mode == 'equal' else list(reversed(dts)), rng.choice(('add', 'sub', 'lt')), 'api:route:frame-op-frame:dtype-runs')
+
+
 def witnesses(ctx):
     """Fixed inputs: one minimal case per known finding (so that every listed finding is re-derived in every run)."""
     import static_frame as sf
@@ -1500,7 +1815,7 @@ def cases(ctx):
     only = os.environ.get('C06_ONLY')          # debugging aid: substring filter on the stratum name
     with warnings.catch_warnings():
         warnings.simplefilter('ignore')
-        for gen in (witnesses, index_exhaustive, index_random, index_hierarchy_cases, hier_shared_cases, nan_label_cases, operator_matrix_cases, datetime_unit_cases, kernel_set_cases, kernel_correspondence_cases,
+        for gen in (witnesses, index_exhaustive, index_random, index_hierarchy_cases, hier_shared_cases, nan_label_cases, operator_matrix_cases, datetime_unit_cases, route_cases, kernel_set_cases, kernel_correspondence_cases,
                     malformed_cases, series_exhaustive, series_random, series_scalar_array,
                     frame_layouts_exhaustive, frame_random, frame_series_cases, frame_scalar_array, frame_reindex_cases):
             for c in gen(ctx):
